@@ -208,6 +208,7 @@ def check(prog, rep, tier):
 
     # ---------------------------------------------------------------- R17.c
     common.well_known_names(prog, rep, 'R17.c')
+    common.extcom_name_consistency(prog, rep, 'R17.a')
 
     # ---------------------------------------------------------------- R17.d
     sites = [(f, n) for f, n in ord_int_sites(prog, 'yabgp.message.attribute')
